@@ -2920,6 +2920,21 @@ package gocql
 // refreshRing: every reported, accepted node is looked up / added by id; a node new to the ring is
 // connected to and handed to the policy; a known node whose address changed is removed (policy,
 // pool, ring) and added again; every node of the previous ring that was not reported is removed.
+// A row of system.local / system.peers(_v2) becomes a HostInfo: each address column goes to its own field (the
+// client-facing address of a node is rpc_address, called native_address in peers_v2), the others are left alone.
+//@ func (s *Session) hostInfoFromMap
+//@   props C16
+//@   count_calls ParseIP
+//@   requires host != nil && s != nil
+//@   ensures result1 == nil ==> result0 == host
+//@   loop 0: invariant host != nil
+//@   loop 0: step key == "native_address" || key == "rpc_address" ==> ParseIP_calls == prev(ParseIP_calls) + 1 && same(host.rpcAddress, ParseIP_ret0) && same(host.connectAddress, prev(host.connectAddress)) && same(host.peer, prev(host.peer)) && same(host.broadcastAddress, prev(host.broadcastAddress))
+//@   loop 0: step key == "peer" ==> ParseIP_calls == prev(ParseIP_calls) + 1 && same(host.peer, ParseIP_ret0) && same(host.rpcAddress, prev(host.rpcAddress)) && same(host.connectAddress, prev(host.connectAddress))
+//@   loop 0: step key == "broadcast_address" ==> same(host.broadcastAddress, ParseIP_ret0) && same(host.rpcAddress, prev(host.rpcAddress)) && same(host.connectAddress, prev(host.connectAddress))
+//@   loop 0: step key == "preferred_ip" ==> same(host.preferredIP, ParseIP_ret0) && same(host.rpcAddress, prev(host.rpcAddress)) && same(host.connectAddress, prev(host.connectAddress))
+//@   loop 0: step key != "native_address" && key != "rpc_address" && key != "peer" && key != "broadcast_address" && key != "preferred_ip" && key != "listen_address" ==> ParseIP_calls == prev(ParseIP_calls) && same(host.rpcAddress, prev(host.rpcAddress)) && same(host.connectAddress, prev(host.connectAddress)) && same(host.peer, prev(host.peer)) && same(host.broadcastAddress, prev(host.broadcastAddress)) && same(host.preferredIP, prev(host.preferredIP))
+//@   loop 0: step key == "listen_address" ==> same(host.listenAddress, ParseIP_ret0) && same(host.rpcAddress, prev(host.rpcAddress)) && same(host.connectAddress, prev(host.connectAddress))
+
 //@ func refreshRing
 //@   props C16
 //@   count_calls ring.addHostIfMissing Session.removeHost startPoolFill filterHost
@@ -3161,20 +3176,24 @@ package gocql
 //@   modifies meta.replicas
 
 //@ func (t *tokenAwareHostPolicy) AddHost
-//@   props C10
+//@   props C10 C16
 //@   count_calls getMetadataForUpdate resetTokenRing updateReplicas Store cowHostList.add cowHostList.get HostSelectionPolicy.AddHost
 //@   requires host != nil && validhost(host) && cow_ptr(t.hosts) && cow_entries(t.hosts) && t.fallback != nil && t.getKeyspaceName != nil && t.logger != nil
+// the ring is rebuilt from the host list as it is AFTER the change
+//@   before[C10,C16] cowHostList.get: cowHostList_add_calls == 1
 //@   before[C10] resetTokenRing: cowHostList_add_calls == 1 && cowHostList_add_ret0 && arg0 == getMetadataForUpdate_ret0 && same(arg1, t.partitioner) && cowHostList_get_calls == 1 && same(arg2, cowHostList_get_ret0) && updateReplicas_calls == 0
 //@   before[C10] updateReplicas: resetTokenRing_calls == 1 && arg1 == getMetadataForUpdate_ret0 && Store_calls == 0
 //@   before[C10] Store: updateReplicas_calls == 1 && typeis(arg1, *clusterMeta) && unbox(arg1, *clusterMeta) == getMetadataForUpdate_ret0
 //@   at_return[C10] cowHostList_add_calls == 1 && (cowHostList_add_ret0 ==> Store_calls == 1) && (!cowHostList_add_ret0 ==> Store_calls == 0 && resetTokenRing_calls == 0) && HostSelectionPolicy_AddHost_calls == 1
 
 //@ func (t *tokenAwareHostPolicy) RemoveHost
-//@   props C10
+//@   props C10 C16
 //@   count_calls getMetadataForUpdate resetTokenRing updateReplicas Store cowHostList.remove cowHostList.get HostSelectionPolicy.RemoveHost
 //@   requires host != nil && validhost(host) && cow_ptr(t.hosts) && cow_entries(t.hosts) && t.fallback != nil && t.getKeyspaceName != nil && t.logger != nil
 // the list holds no two hosts with one address (add refuses them), so removing by address leaves no hole
 //@   assume_after cowHostList.remove: cow_entries(t.hosts)
+// the ring is rebuilt from the host list as it is AFTER the change
+//@   before[C10,C16] cowHostList.get: cowHostList_remove_calls == 1
 //@   before[C10] resetTokenRing: cowHostList_remove_calls == 1 && cowHostList_remove_ret0 && arg0 == getMetadataForUpdate_ret0 && same(arg1, t.partitioner) && cowHostList_get_calls == 1 && same(arg2, cowHostList_get_ret0) && updateReplicas_calls == 0
 //@   before[C10] updateReplicas: resetTokenRing_calls == 1 && arg1 == getMetadataForUpdate_ret0 && Store_calls == 0
 //@   before[C10] Store: updateReplicas_calls == 1 && typeis(arg1, *clusterMeta) && unbox(arg1, *clusterMeta) == getMetadataForUpdate_ret0
